@@ -117,7 +117,7 @@ Definition MQPost (c : caller) (fr fr' : option frame) (o : qout) (i : info) (n 
 (** * statements *)
 Definition msound_query (f : nat) : Prop :=
   forall inp X Y stk c fr n s o fr' ms s',
-    MInv p rk sB (X ++ Y) inp s -> StkOk rk stk n -> (is_cq c = false -> stk = []) ->
+    MInv p rk sB (X ++ Y) inp s -> StkR p stk n -> (is_cq c = false -> stk = []) ->
     MNPq c n s -> XMode c X -> QPreS c n Y s ->
     mquery f stk c fr n s = Ok (o, fr', ms, s') ->
     MInv p rk sB X inp s' /\ (is_cq c = true -> MKeeps s s') /\ ms = [] /\
@@ -130,7 +130,7 @@ Definition XPost (X : list node) (inp : menv) (c : caller) (n : node) (s' : stat
 
 Definition msound_execute (f : nat) : Prop :=
   forall inp X stk c n rc fr0 s ms s',
-    MInv p rk sB X inp s -> StkOk rk stk n -> (is_cq c = false -> stk = []) ->
+    MInv p rk sB X inp s -> StkR p stk n -> (is_cq c = false -> stk = []) ->
     FrEmpty fr0 -> ~ sverified s n ->
     (x_pedantic c = true \/ X = []) ->
     ((rc = true /\ MStaleV s n /\ (x_pedantic c = true \/ TfcOK s n)) \/ (rc = false /\ get_info s n = None)) ->
@@ -139,7 +139,7 @@ Definition msound_execute (f : nat) : Prop :=
 Definition msound_eval (f : nat) : Prop :=
   forall inp X stk n pd prev e fr s o fr' ms s',
     MInv p rk sB X inp s ->
-    (forall d, In d (expr_reads e) -> StkOk rk stk d /\ (rk d < rk n)%nat) ->
+    (forall d, In d (expr_reads e) -> StkR p stk d /\ (rk d < rk n)%nat) ->
     MFrOk rk s n fr -> (pd = true \/ MPrevOK s prev) -> (pd = true \/ X = []) ->
     meval f stk (CQuery n true pd prev) e fr s = Ok (o, fr', ms, s') ->
     MInv p rk sB X inp s' /\ MKeeps s s' /\ ms = [] /\ MFrOk rk s' n fr' /\
@@ -148,7 +148,7 @@ Definition msound_eval (f : nat) : Prop :=
       (forall d, In d (map fst (fr_callees fr')) <-> In d (map fst (fr_callees fr)) \/ In d l).
 Definition msound_repair (f : nat) : Prop :=
   forall inp X stk c n s ms s',
-    MInv p rk sB X inp s -> StkOk rk stk n -> (is_cq c = false -> stk = []) -> ~ sverified s n ->
+    MInv p rk sB X inp s -> StkR p stk n -> (is_cq c = false -> stk = []) -> ~ sverified s n ->
     (x_pedantic c = true \/ (X = [] /\ TfcOK s n)) ->
     mrepair f stk c n s = Ok (ms, s') ->
     XPost X inp c n s' /\ MKeeps s s' /\ ms = [].
@@ -170,7 +170,7 @@ Proof.
   - inversion H. subst. split; [exact HI|]. intros t [].
   - destruct (mquery f [] CRepairFirewall None t s) as [[[[o fr'] m'] s1]| | |] eqn:Eq; try discriminate.
     pose proof (mono_q f _ _ _ _ _ _ _ _ _ Eq) as M1.
-    destruct (IHq inp [] [] [] CRepairFirewall None t s o fr' m' s1 HI (StkOk_nil rk t) (fun _ => eq_refl)
+    destruct (IHq inp [] [] [] CRepairFirewall None t s o fr' m' s1 HI (StkR_nil p t) (fun _ => eq_refl)
                 I eq_refl
                 (or_introl eq_refl) Eq) as (HI1 & _ & _ & i & Hi & Hv & _).
     destruct (IH s1 s' HI1 H) as (HI2 & V2).
@@ -190,11 +190,20 @@ Proof.
   - destruct (mquery f [] CBPP None q s) as [[[[o fr'] m'] s1]| | |] eqn:Eq; try discriminate.
     pose proof (mono_q f _ _ _ _ _ _ _ _ _ Eq) as M1.
     assert (HI0 : MInv p rk sB (X ++ []) inp s) by (rewrite app_nil_r; exact HI).
-    destruct (IHq inp X [] [] CBPP None q s o fr' m' s1 HI0 (StkOk_nil rk q) (fun _ => eq_refl)
+    destruct (IHq inp X [] [] CBPP None q s o fr' m' s1 HI0 (StkR_nil p q) (fun _ => eq_refl)
                 (Hk q (or_introl eq_refl)) I (or_introl eq_refl) Eq) as (HI1 & _ & _ & i & Hi & Hv & _).
     destruct (IH s1 s' HI1 (fun x Hx => Hk x (or_intror Hx)) H) as (HI2 & M2 & V2).
     split; [exact HI2|]. split; [eapply MonoR_trans; eauto|].
     intros x [<-|Hx]; [|apply V2; exact Hx]. eapply sverified_mono; [exact M2|]. exists i. auto.
+Qed.
+
+Lemma mfwd_body : forall Ex X inp s n d, MInvE p rk sB Ex X inp s -> In d (old_fwd s n) ->
+  exists e, alookup p n = Some e /\ In d (expr_reads e).
+Proof.
+  intros Ex X inp s n d HI Hd. unfold old_fwd in Hd. destruct (get_info s n) as [i|] eqn:Hi; [|destruct Hd].
+  destruct (mi_kind _ _ _ _ _ _ _ HI n i Hi) as [(_ & K & _)|(_ & e & l & He & Hev & Hl)].
+  - rewrite K in Hd. destruct Hd.
+  - exists e. split; [exact He|]. eapply evr_reads; eauto. apply Hl. exact Hd.
 Qed.
 
 (** * the repair walk *)
@@ -290,7 +299,34 @@ Proof.
   - intros _ Kn. exists j, v, t. split; [exact B|]. split; [exact C|]. apply E. exact Kn.
 Qed.
 
-Lemma msound_walk : forall f inp X n stk pd i, msound_query f -> StkOk rk stk n ->
+(** the sub-request a repair walk issues for a dependency satisfies [MNPq]: the walk is pedantic,
+    or the transitive firewall callees recorded for the node are verified ([TfcOK]) and then either
+    the dependency still has the transitive firewall callees that were accounted for (so they are
+    verified) or the sub-request is made pedantic *)
+Lemma walk_site_np : forall Ex X inp s n i cal ci0 ov otfc pd pc,
+  MInvE p rk sB Ex X inp s -> get_info s n = Some i ->
+  alookup (i_obs i) cal = Some (ov, otfc) -> get_info s cal = Some ci0 -> nkind cal <> KInput ->
+  (pd = true \/ TfcOK s n) ->
+  (pd = true -> pc = true) ->
+  (nkind cal <> KFirewall -> nset_eqb (i_tfc ci0) otfc = false -> pc = true) ->
+  MNPq (CQuery n false pc []) cal s.
+Proof.
+  intros Ex X inp s n i cal ci0 ov otfc pd pc HI Hi Eo Hci0 Kni Hnp Hp1 Hp2.
+  cbn [MNPq]. destruct Hnp as [K|HT]; [left; auto|].
+  destruct (mstored_kind _ _ _ _ _ _ _ _ _ HI Hci0) as [Kc|[Kc|Kc]].
+  { right. right. intros j Hj F HF. assert (j = ci0) by congruence. subst j.
+    destruct (mi_kind _ _ _ _ _ _ _ HI cal ci0 Hci0) as [(_ & _ & _ & T & _)|(K2 & _)]; [rewrite T in HF; destruct HF|].
+    destruct Kc as [Kc|Kc]; rewrite Kc in K2; discriminate. }
+  - right. left. apply (HT i Hi). apply (proj1 (mi_tfc _ _ _ _ _ _ _ HI n i cal ov otfc Hi Eo)). exact Kc.
+  - assert (Knf : nkind cal <> KFirewall) by (destruct Kc as [Kc|Kc]; rewrite Kc; discriminate).
+    destruct (nset_eqb (i_tfc ci0) otfc) eqn:Et.
+    + right. right. intros j Hj F HF. assert (j = ci0) by congruence. subst j.
+      apply (HT i Hi). apply (proj2 (mi_tfc _ _ _ _ _ _ _ HI n i cal ov otfc Hi Eo) Kc).
+      apply (proj1 (nset_eqb_In _ _) Et). exact HF.
+    + left. auto.
+Qed.
+
+Lemma msound_walk : forall f inp X n stk pd i, msound_query f -> StkR p stk n ->
   forall cs rtfc cleaned fr ms s d fr' ms' s1,
     MInv p rk sB X inp s -> get_info s n = Some i -> ~ sverified s n -> (pd = true \/ (X = [] /\ TfcOK s n)) ->
     (forall x, In x cs -> In x (all_callees (i_fwd i))) ->
@@ -312,6 +348,8 @@ Proof.
     assert (Hcaln : In cal (old_fwd s n)) by (unfold old_fwd; rewrite Hi; exact Hcal).
     assert (Hsub' : forall x, In x r -> In x (all_callees (i_fwd i))) by (intros; apply Hsub; right; assumption).
     assert (Hrkc : (rk cal < rk n)%nat) by (eapply mfwd_rk; eauto).
+    assert (Hstkc : StkR p (n :: stk) cal).
+    { destruct (mfwd_body _ _ _ _ _ _ HI Hcaln) as (e0 & He0 & Hc0). eapply StkR_push; eauto. }
     remember (emem (n, cal) (s_dirty s)) as dt eqn:Edt. symmetry in Edt.
     destruct (negb dt && negb pd && negb (kind_eqb (nkind n) KProjection)) eqn:Eskip.
     + (* skipped *)
@@ -404,26 +442,17 @@ Proof.
         assert (Kni : nkind cal <> KInput) by (intro K; rewrite K in Ek; discriminate).
         match type of Eq with query_for p None f _ (CQuery n false ?pc []) _ _ _ = _ => set (pcal := pc) in * end.
         assert (Hnpq : MNPq (CQuery n false pcal []) cal s).
-        { cbn [MNPq]. destruct Hnp as [->|[_ HT]]; [left; reflexivity|].
-          destruct (mstored_kind _ _ _ _ _ _ _ _ _ HI Hci0) as [Kc|[Kc|Kc]].
-          { (* a leaf (here: an external input) records no transitive firewall callees *)
-            right. right. intros j Hj F HF. assert (j = ci0) by congruence. subst j.
-            destruct (mi_kind _ _ _ _ _ _ _ HI cal ci0 Hci0) as [(_ & _ & _ & T & _)|(K2 & _)]; [rewrite T in HF; destruct HF|].
-            destruct Kc as [Kc|Kc]; rewrite Kc in K2; discriminate. }
-          - right. left. apply (HT i Hi). apply (proj1 (mi_tfc _ _ _ _ _ _ _ HI n i cal ov otfc Hi Eo)). exact Kc.
-          - assert (Ekf : kind_eqb (nkind cal) KFirewall = false).
-            { destruct Kc as [Kc|Kc]; rewrite Kc; reflexivity. }
-            unfold pcal. rewrite Hci0, Ekf. cbn [negb andb].
-            destruct (nset_eqb (i_tfc ci0) otfc) eqn:Et; cbn [negb].
-            + right. right. intros j Hj F HF. assert (j = ci0) by congruence. subst j.
-              apply (HT i Hi). apply (proj2 (mi_tfc _ _ _ _ _ _ _ HI n i cal ov otfc Hi Eo) Kc).
-              apply (proj1 (nset_eqb_In _ _) Et). exact HF.
-            + left. apply orb_true_r. }
+        { eapply (walk_site_np _ _ _ s n i cal ci0 ov otfc pd pcal HI Hi Eo Hci0 Kni).
+          - destruct Hnp as [K|[_ K]]; auto.
+          - intros ->. reflexivity.
+          - intros K1 K2. unfold pcal. rewrite Hci0, K2.
+            destruct (kind_eqb (nkind cal) KFirewall) eqn:Ekf; [apply kind_eqb_eq in Ekf; contradiction|].
+            cbn. apply orb_true_r. }
         assert (Hxm : XMode (CQuery n false pcal []) X).
         { cbn [XMode]. destruct Hnp as [->|[HX _]]; [left; reflexivity|right; exact HX]. }
         assert (HIa : MInv p rk sB (X ++ []) inp s) by (rewrite app_nil_r; exact HI).
         destruct (IHq inp X [] (n :: stk) (CQuery n false pcal []) (Some fr) cal s o fr1 m1 s' HIa
-                    (StkOk_lower _ _ _ _ Hstk Hrkc) (fun K => ltac:(discriminate K)) Hnpq
+                    Hstkc (fun K => ltac:(discriminate K)) Hnpq
                     Hxm (or_introl eq_refl) Eq)
           as (HI' & HK' & -> & ci & Hci & Hv & HP).
         destruct (HP (ex_intro _ fr (conj eq_refl (conj Hscc Htfc)))) as (x' & -> & Sx & Tx).
